@@ -92,6 +92,14 @@ class LedgerMonitor(hist.Monitor):
                 lambda: {"op": enc(op), "labware": name, "pre": self.pre[name].tolist(), "post": post[name].tolist(),
                          "raised": repr(out.exc), "history_tail": eng.tail()},
             )
+        # an array obtained from .volumes belongs to the caller: writing into it must not change the labware
+        for name, lw in eng.world.lw.items():
+            mine = lw.volumes
+            if isinstance(mine, np.ndarray) and mine.size and eng.rng.random() < 0.3:
+                mine *= -1.0
+                mine += 12345.0
+                ctx.count("caller_wrote_into_returned_volumes_array")
+        post = {n: eng.cur(n) for n in eng.descs}
         els = hist.elements(op)
         valid = all(math.isfinite(v) for _, _, v in els)
         if out.exc is None and valid:
